@@ -222,6 +222,15 @@ def same(a, b, rtol=1e-7, path=""):
     return None
 
 
+def _sk_config():
+    try:
+        import sklearn
+
+        return dict(sklearn.get_config())
+    except Exception:  # noqa: BLE001
+        return {}
+
+
 # =========================================================================== world
 
 
@@ -241,6 +250,7 @@ class PurityWorld:
         self.events = 0
         self.results = {}  # (lane, op tag) -> result for repeatability
         self.readonly_args = False
+        self._proc0 = (dict(np.geterr()), _sk_config())
 
     def count(self, k, n=1):
         self.counters[k] = self.counters.get(k, 0) + n
@@ -316,7 +326,33 @@ class PurityWorld:
         return out
 
     # ---- clause 1: heap integrity
+    def check_process_state(self, what, cls):
+        """Ambient state of the process that decides how LATER calls behave must be put back:
+        numpy's floating-point error handling (np.seterr) and scikit-learn's global
+        configuration. A call that leaves them changed makes the next identical call behave
+        differently (e.g. raise FloatingPointError) - 'repeating a call gives the same result'."""
+        now = (dict(np.geterr()), _sk_config())
+        if getattr(self, "_proc0", None) is None:
+            self._proc0 = now
+            return
+        if now != self._proc0:
+            diff = {k: (self._proc0[0].get(k), v) for k, v in now[0].items() if self._proc0[0].get(k) != v}
+            diff.update({k: (self._proc0[1].get(k), v) for k, v in now[1].items() if self._proc0[1].get(k) != v})
+            self.violate(
+                "process_state_changed",
+                cls,
+                f"{what}: left the process-wide settings changed (old, new): {diff} - later calls with the same inputs behave differently",
+            )
+            np.seterr(**self._proc0[0])
+            try:
+                import sklearn
+
+                sklearn.set_config(**self._proc0[1])
+            except Exception:  # noqa: BLE001
+                pass
+
     def check_heap(self, what, cls, args=None, exc=None):
+        self.check_process_state(what, cls)
         bad = self.heap.check()
         for name, (lst, snap) in self.pylists.items():
             if lst != snap:
